@@ -110,6 +110,9 @@ func writeEvidence(p string, spec *propSpec, tier string, seed uint64, a *sim.Ag
 			"exhaustive":               false,
 		},
 	}
+	if concInfo != nil {
+		ev["coverage"].(map[string]interface{})["concurrent_hands"] = concInfo
+	}
 	dir := filepath.Join(verifDir(), "evidence")
 	if d := os.Getenv("VERIF_EVIDENCE_DIR"); d != "" {
 		dir = d // scratch runs against mutated copies must not touch the real evidence
